@@ -13,7 +13,7 @@ ID = "C16"
 LEVEL = "exploration"
 TECHNIQUE = "bounded-exhaustive enumeration of optional-field sequences (by SAM tag type and punctuation class) through every re-serialising entry point, byte-level comparison"
 RULE = (
-    "tag alphabet of 24 well-formed fields by type (i: 0, -5, +3; f: 0.5, -0.5, .5, 1e-05, 3E+2; Z: alnum, one of _ # . - : * / each, interior "
+    "tag alphabet of 25 well-formed fields by type (i: 0, -5, +3; f: 0.5, -0.5, .5, 1e-05, 3E+2; Z: alnum, one of _ # . - : * / each, interior "
     "space, empty; A: P, *; B: i,1,-2 and f,0.5; H: 1AE3) + a repeated tag + ds:Z; every sequence of <=N fields (N=2 quick, 3 thorough) with the "
     "CIGAR field absent or at every position; read name with and without a space; through view -n, view -f stable, view -f unstable, realign "
     "(<=60 kb) and realign pass-through (>60 kb). evaluations = records re-emitted and judged; non-trivial = records with >=1 optional field."
@@ -38,6 +38,7 @@ ALPHA = [
     "ba:B:i,1,-2", "bb:B:f,0.5",
     "ha:H:1AE3",
     "tp:A:P",
+    "oc:Z:x4=4=y",  # contains the text of the input CIGAR used in realign mode
 ]
 EXTRA = ["za:Z:again", "ds:Z:*2+a-t"]  # a repeated tag (za occurs in ALPHA), the ds tag
 MODES = ["view-n", "view-f-stable", "view-f-unstable", "realign", "realign-passthrough"]
@@ -217,7 +218,8 @@ def make_realign_inputs(scratch, mode, entries):
         big = gen._seq(60_010, 99)
         fa.append(f">big\n{big}\n")
     for n, opt in entries:
-        o2 = [("cg:Z:8=" if mode == "realign" else "cg:Z:60001=") if x == "cg:Z:CG" else x for x in opt]
+        # realign mode: a valid but not canonical input CIGAR (two adjacent match runs), which realign rewrites to 8=
+        o2 = [("cg:Z:4=4=" if mode == "realign" else "cg:Z:60001=") if x == "cg:Z:CG" else x for x in opt]
         if mode == "realign":
             i = n % 6
             seq = rc.PATHSEQ[i : i + 8]
@@ -274,10 +276,17 @@ def judge_mode(res, scratch, mode, entries):
             res.fail(f"C16/{kind}", f"[{mode}] {text}", {"mode": mode, "records": [rin.line()]})
 
 
+LONG_FIELD = "zl:Z:" + "ACGT" * 17_500  # 70 kB: the record is longer than a 64 KiB read block
+
+
 def run_shard(spec, tier, scratch):
     res = fw.ShardResult().begin(spec, tier)
     res.next_call()
     entries = build_records(spec["mode"], tier, spec)
+    if spec["shard"] == 0 and spec["mode"].startswith("view"):
+        # records longer than 64 KiB, with fields before and after the long one
+        base = max(n for n, o in entries) + 1 if entries else 1
+        entries = entries + [(base * 1000 + 1, ["xa:i:0", LONG_FIELD, "cg:Z:CG", "zb:Z:a_b"]), (base * 1000 + 2, ["cg:Z:CG", LONG_FIELD, "fd:f:1e-05"])]
     judge_mode(res, scratch, spec["mode"], entries)
     if spec["shard"] == 0 and entries:
         res.sample({"mode": spec["mode"], "optional_fields_of_some_records": [e[1] for e in entries[5:40:7]]})
